@@ -24,7 +24,9 @@ TOTALS = [("varintFORSize", None, "varintFOREncode", True), ("varintFORSize", No
 MAXSIZE = [("varintDeltaEncode", "output", "w_deltaMaxEncodedSize", "count", 1), ("varintDeltaEncodeUnsigned", "output", "w_deltaMaxEncodedSize", "count", 1),
            ("varintBP128Encode32", "dst", "w_bp128MaxBytes", "count", 128), ("varintBP128Encode64", "dst", "w_bp128MaxBytes", "count", 128),
            ("varintBP128DeltaEncode32", "dst", "w_bp128MaxBytes", "count", 128), ("varintBP128DeltaEncode64", "dst", "w_bp128MaxBytes", "count", 128),
-           ("varintEliasGammaEncodeArray", "dst", "w_eliasGammaMaxBytes", "count", 8), ("varintEliasDeltaEncodeArray", "dst", "w_eliasDeltaMaxBytes", "count", 8)]
+           ("varintEliasGammaEncodeArray", "dst", "w_eliasGammaMaxBytes", "count", 8), ("varintEliasDeltaEncodeArray", "dst", "w_eliasDeltaMaxBytes", "count", 8),
+           # float: only the INDEPENDENT exponent mode (mode == 0, one width byte + up to 8 bytes per exponent) is decided
+           ("varintFloatEncode", "output", "w_floatMaxEncodedSize", "count", 8, {"pin": {"mode": 0}, "same": ["precision"], "tight": False})]
 
 
 def loc(i): return "%s:%s" % (rel(i.d.get("file", i.fn.file)), i.d.get("line", "?"))
@@ -97,14 +99,19 @@ def analyse(mod, run, label):
     nmax = 0
     from ..bounds import Bounds
     B = Bounds(w)
-    for enc, dstn, sizer, cname, M in MAXSIZE:
+    for row in MAXSIZE:
+        enc, dstn, sizer, cname, M = row[:5]; opts = row[5] if len(row) > 5 else {}
         ef = need_fn(mod, enc); sf = need_fn(mod, sizer)
         dk = ef.param_index(dstn); ck = ef.param_index(cname)
         if dk is None or ck is None: raise AnalysisBroken("%s: parameters %s / %s not found" % (enc, dstn, cname))
         ub = UB(w, ef); ub.q = M > 1
+        if opts.get("pin"): ub.pin_args({ef.param_index(n): v for n, v in opts["pin"].items()})
         ca = ub.arg_atom(ck)
-        # the sizing function, exactly, in terms of the encoder's count
+        # the sizing function, exactly, in terms of the encoder's count (and of the parameters the two share by name)
         su = UB(w, sf); su.q = True; su.exact_args[0] = Poly.atom(ca)
+        for n in opts.get("same", []):
+            if sf.param_index(n) is None or ef.param_index(n) is None: raise AnalysisBroken("%s / %s: shared parameter %s not found" % (enc, sizer, n))
+            su.exact_args[sf.param_index(n)] = Poly.atom(ub.arg_atom(ef.param_index(n)))
         size = su.exact_return()
         if size is None: raise AnalysisBroken("%s: sizing function is not an exact expression of count" % sizer)
         try:
@@ -146,6 +153,11 @@ def analyse(mod, run, label):
         if bad:
             r, qpos, p, S, d = bad[0]
             what = "%s can write up to %r bytes but %s promises %r (for count = %s: bound %r, promised %r)" % (enc, p, sname, size, ("%d*q + %d, q >= 1" % (M, r)) if qpos else str(r), S - d, S)
+        if size.atoms() and any(isinstance(a, tuple) and a[0] == "call" and a[1].startswith(sname[:12]) for a in size.atoms()):
+            run.defer_broken("Z2 %s: the sizing function %s is not an exact arithmetic expression of its parameters (conditional or loop inside)" % (enc, sname)); nmax -= 1; continue
+        if bad and not opts.get("tight", True):
+            # the engine's bound for this encoder is not attained (it charges the worst case of every part at once), so failing to prove is not a verdict
+            run.defer_broken("Z2 %s: cannot establish that writes stay within %s: %s" % (enc, sname, what)); nmax -= 1; continue
         run.check(not bad, "Z2-writes-within-max-size", {"encoder": enc, "write_sites": nacc, "upper_bounds": [repr(q) + ("" if c is None else "  [when %r > 0]" % c) for q, c in worst], "advertised": repr(size), "residues": M, "comparisons": ncmp},
                   Finding("Z2-max-size-too-small", enc, sname, "bound", what, loc="%s:%s" % (rel(ef.file), ef.line)))
     return npairs, nmax, ntot
@@ -220,10 +232,10 @@ def run(tier):
         per[cfg] = {"predictor_encoder_pairs": np_, "max_size_sites": nm, "total_size_pairs": nt}
         if not getattr(run, "deferred", None): run.floor("total-size pairs (%s)" % cfg, nt, 5)
         run.floor("predictor/encoder pairs (%s)" % cfg, np_, 6)
-        if not getattr(run, "deferred", None): run.floor("max-size sites (%s)" % cfg, nm, 8)
+        if not getattr(run, "deferred", None): run.floor("max-size sites (%s)" % cfg, nm, 9)
     run.coverage.update({"configurations": per,
                          "not_decided": ["varintRLEEncode vs varintRLEMaxSize (amortised argument: a run of L values costs len(L)+9 <= 10L)", "varintAdaptiveEncode vs varintAdaptiveMaxSize (depends on what the value-level selection picks)",
-                                         "varintFloatEncode vs varintFloatMaxEncodedSize (needs that special and normal values are exclusive)",
+                                         "varintFloatEncode vs varintFloatMaxEncodedSize in the COMMON_EXPONENT and DELTA_EXPONENT modes (only INDEPENDENT is decided)",
                                          "write extents of the FOR / PFOR / Dict / Group encoders against their predictors (Z1 and Z3 compare terms and totals; a store wider than the cursor's advance is not seen)",
                                          "bytes touched by varintBitWriterWrite are assumed to lie below varintBitWriterBytes()"]})
     return run.finish(
